@@ -104,6 +104,13 @@ def run_check(pid, tier, seed, replay=None):
         if any(t == "Pratovf" for t in toks):
             discarded += 1
             continue
+        if any(t == "Ptimeout" for t in toks):
+            # the call did not come back within the executor's per-case limit: no property of this library tolerates a
+            # call that does not return (work bounds / termination are part of C08, C10, C12, C17; elsewhere every modelled
+            # function is total), and the model answers the same case in milliseconds
+            violations.append(("oracle", "the call did not return within the executor's time limit (%s s): unbounded loop or work"
+                               % os.environ.get("VERIF_CASE_TIMEOUT", "10"), c))
+            continue
         if any(t == "Pharness" for t in toks):
             # the executor's own checks: operand mutated / owned-borrowed differ are property failures (C20);
             # anything else is a bug of the machinery
